@@ -65,12 +65,16 @@ def des3_unwrap_is_dead(prog):
     o.CAP = 32
     o.go()
     args = {e[2][1] for oc in o.outcomes for e in oc['events'] if e[1] == 'setBitLen'}
-    g = [x for x in prog.fns('OSSLDES::getCipher')]
+    g = [x for x in prog.fns('OSSLDES::getCipher') + prog.fns('BotanDES::getCipher')]
     ok_sizes = set()
     for fn in g:
         for n in walk(fn['body']):
             if n.get('k') == 'Bin' and n['op'] in ('==', '!=') and n['b'].get('k') == 'Lit' and 'getBitLen' in canon(n['a']):
                 ok_sizes.add(n['b']['v'])
+            elif n.get('k') == 'Switch' and 'getBitLen' in canon(n['c']):
+                from engine import tables
+                for labels, body in tables.switch_cases(n):
+                    ok_sizes |= {int(l) for l in labels if l is not None and str(l).isdigit()}
     return bool(args) and all(a.endswith('*8)') or a.endswith('*8') for a in args) and ok_sizes and not (ok_sizes & {128, 192})
 
 
